@@ -1,5 +1,7 @@
 """C03: strict packet slicing matches the wire formats (also the base of C07)."""
+import os
 import pktgen
+import vlib
 from vlib import hx
 
 ID = "C03"
@@ -13,7 +15,11 @@ RULE = ("structured layered packets (Ethernet II | SLL | bare ether type | bare 
         "non-trivial = parsing got beyond the first header (a link extension, net or transport layer present, or an "
         "error located at offset > 0); distinct = distinct (entry, bytes)")
 PROJECTION = "C03: Ok rendering (layers, windows, ip numbers, fragmentation, len sources) and reject class (Len+layer / Content+tag)"
-ASSUMPTIONS = ["field values other than those that drive the parse are covered by C08/C15/C17, not compared here"]
+ASSUMPTIONS = ["header FIELD VALUES (addresses, ports, flags, identifiers, option bytes, ...) of every layer of an accepted "
+               "packet: theorems C03_fields_from_* (Parse/Fields.v: accessor models of Parse/Access.v = RFC field at the "
+               "layer's absolute position) and, on every run, the second comparison `fields_compare` (harness c03f = real "
+               "slice accessors + to_header()/to_packet() cross-check, runner run_c03f = model | spec); typed "
+               "interpretations above the raw fields (ICMP message kinds, TCP option elements, NDP) are C17/C13"]
 FULL_ERRORS = False   # C07 sets this
 
 
@@ -91,6 +97,39 @@ def oracle(il, sl, full_errors):
     return ("impl '%s' vs spec '%s'" % (il, sl), None)
 
 
+def fields_compare(ctx, cases):
+    """second comparison (C03 only): the decoded header field values of every layer of the strict result.
+    harness bin c03f: the REAL slice accessors of every stored slice (plus to_header()/to_packet() equality), one
+    canonical `ok layer:field=value;... layer:...` line; runner run_c03f (ExtC03f.v): `model | spec` with
+    model = Parse/Fields.v fields_of_packet (accessor models of Parse/Access.v), spec = spec_fields on the view of
+    the reference decoder.  implementation != model -> corr_mismatch, implementation != spec -> oracle_fail."""
+    ok, out = vlib.ocaml_build("ExtC03f.v", "m_c03f", "run_c03f")
+    if not ok:
+        return [(0, "c03f: extraction / model runner build failed: " + out[-400:])], [], {}
+    ok, out, exe = vlib.harness_build("c03f", "debug")
+    if not ok:
+        return [(0, "c03f: harness build failed: " + out[-400:])], [], {}
+    m = vlib.run_sharded([os.path.join(vlib.OCAML, "bin", "run_c03f")], cases, "C03f_m")
+    r = vlib.run_sharded([exe], cases, "C03f_i")
+    corr, orc = [], []
+    okc = nfields = 0
+    lay = {}
+    for k, (a, b) in enumerate(zip(m, r)):
+        mm, _, ss = a.partition(" | ")
+        if b != mm:
+            corr.append((k, "field values: impl '%s' model '%s'" % (b[:600], mm[:600])))
+        if b != ss:
+            orc.append((k, "field values: impl '%s' but the wire format prescribes '%s'" % (b[:600], ss[:600]), None))
+        if b.startswith("ok"):
+            okc += 1
+            for l in b.split()[1:]:
+                t = l.split(":")[0]
+                lay[t] = lay.get(t, 0) + 1
+                nfields += l.count("=")
+    return corr, orc, {"field_runs": len(cases), "field_runs_accepted": okc, "field_values_equal": nfields,
+                       "field_layers": dict(sorted(lay.items()))}
+
+
 def compare(ctx, cases, impl, model_lines, full_errors=None):
     if full_errors is None:
         full_errors = FULL_ERRORS
@@ -124,5 +163,11 @@ def compare(ctx, cases, impl, model_lines, full_errors=None):
                     orc.append((i, "%s: %s" % (prof, o[0]), o[1]))
             elif il.startswith("PANIC") or il.startswith("CRASH"):
                 orc.append((i, "%s: %s" % (prof, il), None))
+    extra = {}
+    if ctx.pid == "C03":
+        fc, fo, extra = fields_compare(ctx, cases)
+        corr.extend(fc)
+        orc.extend(fo)
     return {"corr_mismatch": corr, "oracle_fail": orc, "hist": dict(sorted(hist.items(), key=lambda kv: -kv[1])[:60]),
-            "nontrivial": nontriv, "samples": [cases[0], cases[len(cases) // 3], cases[len(cases) // 2], cases[-1]]}
+            "nontrivial": nontriv, "samples": [cases[0], cases[len(cases) // 3], cases[len(cases) // 2], cases[-1]],
+            "extra": extra}
